@@ -899,8 +899,19 @@ func c09WorkersSurviveBadInput(out *vlib.Out) {
 		// hand 3 x workers bad messages to the pool (a message that is dropped because the buffer is
 		// momentarily full does not count); give up after 3 s
 		deadline := time.Now().Add(3 * time.Second)
-		for i := 0; forwarded() < int64(3*workers) && time.Now().Before(deadline); i++ {
-			in <- bad[i%len(bad)]
+		blocked := false
+		send := func(m []byte) {
+			select {
+			case in <- m:
+			case <-time.After(20 * time.Second):
+				if !blocked {
+					out.OracleFail("C09:distributor-blocked", "the distributor did not take a message from its input within 20 s ("+name+")", "pipeline case="+name)
+				}
+				blocked = true
+			}
+		}
+		for i := 0; forwarded() < int64(3*workers) && time.Now().Before(deadline) && !blocked; i++ {
+			send(bad[i%len(bad)])
 			time.Sleep(500 * time.Microsecond)
 		}
 		// now valid registrations: at least one must reach the liveness probe
@@ -908,8 +919,8 @@ func c09WorkersSurviveBadInput(out *vlib.Out) {
 		ok := false
 		deadline = time.Now().Add(5 * time.Second)
 		for i := 0; time.Now().Before(deadline); i++ {
-			if i < 50 {
-				in <- c09ValidMsg(5000 + workers*100 + i)
+			if i < 50 && !blocked {
+				send(c09ValidMsg(5000 + workers*100 + i))
 			}
 			if atomic.LoadInt64(&lv.probes) >= 1 {
 				ok = true
